@@ -188,6 +188,10 @@ func (w *walWriter) closeManager() error {
 	if w.manager == nil {
 		return nil
 	}
+	if err := verifhook.Fail("walstore:manager:close"); err != nil {
+		// the manager is closed all the same; a harness makes Close report a failure
+		return errors.Join(err, w.manager.Close())
+	}
 	return w.manager.Close()
 }
 
